@@ -1303,3 +1303,103 @@ def check_C07(tier, seed):
     return res.finish(gate)
 
 CHECKS['C07'] = check_C07
+
+# ---------------------------------------------------------------- C06
+def check_C06(tier, seed):
+    from .gen import macros
+    res = Result('C06', tier, seed); res.pending = []
+    gate = proof_gate('C06')
+    core.build_model(); core.build_impl()
+    rng = random.Random(seed)
+    pre = macros.prelude()
+    obs = ['a', 'b', 'n', 'x', 's', 'u', 'v', 'w', 'tmp', 'lst', 'e']
+    cases = []
+    forms = []
+    n = tier_n(tier, 700, 20000)
+    for i in range(n):
+        g = macros.MacroGen(rng)
+        f = g.form(rng.choice([1, 2, 3]))
+        ft = render(f)
+        forms.append(ft)
+        c = Case('m%d' % i)
+        # ctx 0: evaluate the form directly (twice: expansion must not be destructive)
+        c.ctx(0); c.eval(pre); c.eval(ft); c.vars(obs); c.eval(ft); c.vars(obs)
+        # ctx 1: evaluate its expansion
+        c.ctx(1); c.eval(pre); c.eval("(setq expansion (macroexpand '%s))" % ft); c.eval('(eval expansion)'); c.vars(obs); c.eval('(eval expansion)'); c.vars(obs)
+        # ctx 2: expansion text, idempotence, the quoted form is untouched
+        c.ctx(2); c.eval(pre)
+        c.eval("(macroexpand '%s)" % ft)
+        c.eval("(let ((e1 (macroexpand '%s))) (list (equal e1 (macroexpand e1)) (equal (macroexpand ''%s) ''%s)))" % (ft, ft, ft))
+        # ctx 3: inside a function body, called twice
+        c.ctx(3); c.eval(pre); c.eval('(defun fn () %s)' % ft); c.eval('(fn)'); c.eval('(fn)'); c.vars(obs)
+        cases.append(c)
+    impl, model, dis = differential(res, cases)
+    nv = 0
+    distinct = set()
+    def obsline(l):
+        idx, kind, payload, ticks = core.parse_line(l)
+        return core.default_observe(kind, payload, ticks)
+    for i, c in enumerate(cases):
+        ls = impl.get(c.cid, [])
+        if len(ls) < 19: continue
+        direct = [obsline(l) for l in ls[1:5]]
+        viaexp = [obsline(l) for l in ls[7:11]]
+        why = None
+        if direct != viaexp: why = 'evaluating the form and evaluating its macro-expansion differ (value, effects or variables)'
+        idem = core.parse_line(ls[13])
+        if why is None and idem[1] == 'V' and unhx(idem[2]) != '(t t)': why = 'expansion not idempotent or quoted data altered: ' + unhx(idem[2])
+        d1 = obsline(ls[1]); 
+        f1 = obsline(ls[16])
+        if why is None and (d1[0], d1[1]) != (f1[0], f1[1]) and '(inc ' not in forms[i] and 'setq' not in forms[i]:
+            why = 'the form inside a function body evaluates differently from the top-level form'
+        distinct.add(unhx(core.parse_line(ls[12])[2])[:80] if core.parse_line(ls[12])[1] == 'V' else forms[i][:30])
+        if why:
+            nv += 1
+            if nv <= 8: res.violation('macro', {'form': forms[i], 'why': why, 'requests': c.readable(), 'impl': [decode_line(l) for l in ls], 'raw_case': c.text()})
+    # built-in macros against their definitions (explicit equivalent forms)
+    eq_items = []
+    def same(a, b): eq_items.append(('%s (list (progn %s) (progn %s))' % (pre, a, b), {'a': a, 'b': b}))
+    for _ in range(tier_n(tier, 150, 3000)):
+        e1 = rng.choice(['1', 'nil', 'a', "(car '(5))", "(cdr '(5))"]); e2 = rng.choice(['2', 'nil', 'b', '(+ u 1)'] if True else [])
+        th = rng.choice(["(list u v)", "'then", "(+ 1 2)"]); el = rng.choice(["'else", "(list 'e u)", "nil"])
+        e2s = e2 if 'u' not in e2 or e1 not in ('nil', "(cdr '(5))") else '2'
+        same('(if-let* ((u %s) (v %s)) %s %s)' % (e1, e2s, th.replace('u v', 'u v'), el.replace(' u', ' 0')),
+             '(let ((u %s)) (if u (let ((v %s)) (if v %s %s)) %s))' % (e1, e2s, th, el.replace(' u', ' 0'), el.replace(' u', ' 0')))
+        same('(if-let ((u %s)) %s %s)' % (e1, th.replace(' v', ''), el.replace(' u', ' 0')),
+             '(let ((u %s)) (if u %s %s))' % (e1, th.replace(' v', ''), el.replace(' u', ' 0')))
+        same('(when-let ((u %s)) 1 %s)' % (e1, th.replace(' v', '')), '(let ((u %s)) (if u (progn 1 %s)))' % (e1, th.replace(' v', '')))
+        same('(when %s 1 2)' % e1, '(if %s (progn 1 2))' % e1)
+        same('(unless %s 1 2)' % e1, '(if %s nil 1 2)' % e1)
+        x = rng.choice(['5', 'n', '(+ 1 2)'])
+        same('(-> %s (- 1) (list 9) 1+)' % x if False else '(-> %s (- 1) (list 9))' % x, '(list (- %s 1) 9)' % x)
+        same('(->> %s (- 1) (list 9))' % x, '(list 9 (- 1 %s))' % x)
+        same('(thread-first %s 1+ (* 2))' % x, '(* (1+ %s) 2)' % x)
+        same('(thread-last %s 1+ (- 20))' % x, '(- 20 (1+ %s))' % x)
+        same('(-> %s)' % x, x)
+        same("(let ((l '(1 2 nil 4)) (acc 0)) (while-let ((e (car l))) (setq l (cdr l)) (setq acc (+ acc e))) (list l acc))",
+             "(let ((l '(1 2 nil 4)) (acc 0)) (while (let ((e (car l))) (if e (progn (setq l (cdr l)) (setq acc (+ acc e)) t))) ) (list l acc))")
+    rows = run_exprs(res, eq_items, per_case=20, tag='b')
+    for text, meta, im, mo in rows:
+        if im is None: continue
+        if im['kind'] == 'V':
+            m = im['payload']
+            # (A B): both halves must print the same
+            inner = m[1:-1]
+            half = len(inner) // 2
+            if not (len(inner) % 2 == 1 and inner[:half] == inner[half + 1:]):
+                nv += 1
+                if nv <= 8: res.violation('builtin-macro', {'macro_form': meta['a'], 'definition': meta['b'], 'impl': im, 'why': 'built-in macro and its definition evaluate differently'})
+        elif im['kind'] != 'E':
+            nv += 1
+    replay_known(res, 'C06')
+    res.cov['distinct_nontrivial'] = len(distinct)
+    res.cov['rule'] = ('random forms (depth 1-3) using 11 user macros (defmacro with &optional/&rest, backquote templates, macros expanding to macros) and all built-in macros in arguments, bodies, '
+                       'let/cond/lambda, with quoted data containing macro names; per form four contexts: eval twice; macroexpand then eval twice; expansion text + idempotence + quoted form untouched; '
+                       'inside a defun called twice. Oracle (implementation only): direct = via expansion on value, tick log and variables; (equal e (macroexpand e)); built-in macros = explicit equivalent forms. '
+                       'Correspondence: all transcripts equal the model')
+    res.cov['samples'] = forms[:3]
+    for d in res.pending:
+        res.violation('disagreement', d, no_input=not oracle_confirms(d))
+    return res.finish(gate)
+
+CHECKS['C06'] = check_C06
